@@ -23,7 +23,7 @@ pub fn c16(tier: Tier) -> ! {
     let mut run = Run::new("C16", tier, "exploration");
     run.set(
         "rule",
-        "complete: 7 groups; every listed operation, every ordered pair of operations, every inverse, compared with an independent ITA table; every operation conjugated into every cell of a family grid. Non-trivial = a (group, operation pair) or (group, operation, cell) obligation that was evaluated",
+        "complete: 7 groups, asked for three times in two orders on one thread; every listed operation, every ordered pair of operations, every inverse, compared with an independent ITA table; every operation conjugated into every cell of a family grid. Non-trivial = a (group, operation pair) or (group, operation, cell) obligation that was evaluated",
     );
     let mut evals = 0u64;
     let mut distinct = 0u64;
@@ -31,7 +31,10 @@ pub fn c16(tier: Tier) -> ! {
     let lengths = [0.01, 0.5, 1., 3.7, 100.];
     let ratios = [0.1, 0.34, 0.73, 1.];
     let angles = [std::f64::consts::PI / 6., 1., 1.3, std::f64::consts::PI / 2.];
-    for name in GROUP_NAMES.iter() {
+    // three passes over the table on one thread (forward, reverse, forward): what a name yields
+    // must not depend on what was asked for before
+    let order: Vec<&str> = GROUP_NAMES.iter().cloned().chain(GROUP_NAMES.iter().rev().cloned()).chain(GROUP_NAMES.iter().cloned()).collect();
+    for name in order.iter() {
         let group = match get_wallpaper_group(wallpaper_enum(name)) {
             Ok(g) => g,
             Err(e) => {
@@ -157,6 +160,51 @@ pub fn c16(tier: Tier) -> ! {
         }
         run.sample(json!({"group": name, "family": fam, "strings": group.wyckoff_str, "content": [twofold, mirrors, glides]}));
     }
+    // depth-2 histories: on a fresh thread one operation string goes through the parser (valid
+    // ones, and ones the parser must reject at its first or second component), then a group is
+    // built; its operations are the ITA general positions whatever was parsed before
+    let preludes: Vec<&str> = vec![
+        "x, y", "-x, -y", "x+1/2, -y+1/2", "y, x", "(-x, y+0.5)", "x+1/2, y+1/4 ?", "x, q", "q, x", "x", "", "x,y,z", "x+, y", "x, y+", "-x+1/2, 2", "(x, y", "x, y)", "x+1/2", "1/2, 1/2", "x, y/0",
+    ];
+    let mut pj: Vec<(usize, usize)> = vec![];
+    for a in 0..preludes.len() {
+        for b in 0..GROUP_NAMES.len() {
+            pj.push((a, b));
+        }
+    }
+    let res = crate::common::par_map(&pj, |_, &(ia, ib)| {
+        let name = GROUP_NAMES[ib];
+        let text = preludes[ia].to_string();
+        let got: Result<Vec<Aff>, String> = std::thread::scope(|sc| {
+            sc.spawn(|| {
+                let _ = std::panic::catch_unwind(|| packing::Transform2::from_operations(&text).is_ok());
+                let group = get_wallpaper_group(wallpaper_enum(name)).map_err(|e| e.to_string())?;
+                let site = WyckoffSite::new(&group).map_err(|e| e.to_string())?;
+                Ok(site.symmetries.iter().map(Aff::from_t2).collect())
+            })
+            .join()
+            .unwrap_or_else(|_| Err("panic".to_string()))
+        });
+        let ita: Vec<Aff> = ita_ops(name).iter().map(|o| o.as_aff()).collect();
+        match got {
+            Err(e) => Some(format!("{}: cannot be built right after {:?} went through the operation parser on the same thread: {}", name, preludes[ia], e)),
+            Ok(ops) => {
+                let same = ops.len() == ita.len() && ita.iter().all(|i| ops.iter().filter(|o| aff_eq_mod_lattice(o, i)).count() == 1);
+                if same {
+                    None
+                } else {
+                    Some(format!("{}: built right after {:?} went through the operation parser on the same thread, its operations are not the group's general positions: {:?}", name, preludes[ia], ops.iter().map(|o| (o.m, o.t)).collect::<Vec<_>>()))
+                }
+            }
+        }
+    });
+    for (i, r) in res.into_iter().enumerate() {
+        evals += 1;
+        if let Some(w) = r {
+            run.fail(None, &w, json!({"engine": "parse-then-build", "parsed_first": preludes[pj[i].0], "group": GROUP_NAMES[pj[i].1]}));
+        }
+    }
+    run.set("groups_built_after_one_parse_on_a_fresh_thread", pj.len() as u64);
     run.set("evaluations", evals);
     run.set("distinct_nontrivial", distinct);
     run.set("exhaustive", true);
@@ -472,6 +520,28 @@ pub fn c17(tier: Tier) -> ! {
             Ok(Err(_)) => rerrs += 1,
         }
     }
+    // a rejected string must leave nothing behind: a good string parsed right after it on the
+    // same thread still has its own value
+    let x = Component { terms: vec![Term::X(false)] };
+    let y = Component { terms: vec![Term::Y(false)] };
+    let gx = Component { terms: vec![Term::X(true), Term::C(false, 1, 2)] };
+    let bad_then_good = ["(-x, y+0.5)", "x, y+a", "-x+1/2, q", "y, ", "x,y,z", "x", "-y, x; ", "1/2+x, y*", "x, 2é"];
+    let mut poison = 0u64;
+    for b in bad_then_good.iter() {
+        for (gs, c1, c2) in [("x,y", &x, &y), ("-x+1/2, y", &gx, &y), ("y,x", &y, &x)].iter() {
+            let _ = panic::catch_unwind(|| Transform2::from_operations(b));
+            poison += 1;
+            if let Err(e) = check_parse(gs, c1, c2) {
+                run.fail(None, &format!("after parsing {:?}: {}", b, e), json!({"first": b, "then": gs}));
+            }
+            // and a good string parsed twice in a row, from two different allocations
+            let again: String = gs.chars().collect();
+            if let Err(e) = check_parse(&again, c1, c2) {
+                run.fail(None, &format!("second parse of {:?}: {}", gs, e), json!({"string": gs}));
+            }
+        }
+    }
+    run.set("rejected_then_good_pairs", poison);
     panic::set_hook(prev_hook);
     run.set("robustness_strings", rn);
     run.set("robustness_max_len", maxlen as u64);
